@@ -324,6 +324,10 @@ namespace Pistache::Tcp
                         wq.push_front(WriteEntry(std::move(deferred), bufferHolder, flags));
                         reactor()->modifyFd(key(), fd, NotifyOn::Read | NotifyOn::Write,
                                             Polling::Mode::Edge);
+                        // Come back when the socket is writable again; retrying
+                        // right away would spin on EAGAIN and starve every other
+                        // connection of this worker
+                        stop = true;
                     }
                     // EBADF can happen when the HTTP parser, in the case of
                     // an error, closes fd before the entire request is processed.
